@@ -9,6 +9,8 @@ CONSTANTS
   Drops = {"dropAll", "dropPrefix"}
   DropAt = 0
   Races = {}
+  MultiAt = 0
+  MultiN = 0
   MaxEnv = 6
   MaxRow = 2
   VlogMaxEntries = 2
